@@ -302,6 +302,7 @@ type docGen struct {
 	mShape    string   // type string the special alias "m" stands for
 	root      bool
 	hostile   bool
+	constOnly bool                   // generating a default value: no variables inside
 	argTexts  map[string]string      // response key / field name -> argument list
 	typed     []string               // declarations of the typed variables used as arguments
 	typedVals map[string]interface{} // their raw values (absent: no value)
